@@ -52,6 +52,25 @@ func (c *loggedConn) Read(p []byte) (int, error) {
 	return n, err
 }
 
+// countConn counts the bytes read through it.
+type countConn struct {
+	net.Conn
+	n *atomic.Int64
+}
+
+func (c *countConn) Read(p []byte) (int, error) {
+	n, err := c.Conn.Read(p)
+	c.n.Add(int64(n))
+	return n, err
+}
+
+func (c *countConn) CloseWrite() error {
+	if cw, ok := c.Conn.(interface{ CloseWrite() error }); ok {
+		return cw.CloseWrite()
+	}
+	return nil
+}
+
 func (c *loggedConn) CloseWrite() error {
 	if cw, ok := c.Conn.(interface{ CloseWrite() error }); ok {
 		return cw.CloseWrite()
@@ -88,8 +107,9 @@ type Peer struct {
 	// Coalesce (TLS peers): records written within a millisecond leave in one segment.
 	Coalesce atomic.Bool
 
-	accepts atomic.Int64
-	mu      sync.Mutex
+	accepts  atomic.Int64
+	appBytes atomic.Int64 // TLS peers: decrypted bytes received
+	mu       sync.Mutex
 	conns   []*ConnLog
 	reqs    []*RecordedReq
 	trimmed int
@@ -160,7 +180,9 @@ func (p *Peer) serve() {
 					return
 				}
 				ts.SetDeadline(time.Time{})
-				conn = ts
+				// the connection log holds the raw bytes; what counts as "received" (BytesIn) is the decrypted stream:
+				// a late close_notify on an old connection is not a byte anybody sent to this peer
+				conn = &countConn{Conn: ts, n: &p.appBytes}
 			}
 			pc := &PeerConn{Conn: conn, Raw: tc, Br: bufio.NewReaderSize(conn, 64<<10), Log: cl, Peer: p, Index: idx}
 			if p.handler != nil {
@@ -174,6 +196,9 @@ func (p *Peer) Accepts() int { return int(p.accepts.Load()) }
 
 // BytesIn is the total number of raw bytes received on all connections.
 func (p *Peer) BytesIn() int {
+	if p.tlsCfg != nil {
+		return int(p.appBytes.Load())
+	}
 	p.mu.Lock()
 	defer p.mu.Unlock()
 	n := 0
